@@ -472,10 +472,17 @@ def semSDevice : DevSem α δ :=
 section
 variable [Add α] [Sub α] [Mul α] [Div α] [Neg α] [OfNat α 0] [OfNat α 1] [OfNat α 2]
   [LT α] [LE α] [DecidableEq α] [DecidableLT α] [DecidableLE α]
-/-- `ADevice.constraints` (adevice.py:23-29): the setter stores a copy of the user's list, but the
-GETTER returns `Device.constraints + self._constraints` — the cumulative-bound closures of the
-original object in front of the user's constraints.  `to_dict` dumps the getter's value. -/
+/-- ADevice (adevice.py:23-37): the `constraints` setter stores a copy of the user's list; the `constraints`
+GETTER returns `Device.constraints + self._constraints`, but `ADevice.to_dict` overwrites the dumped value
+with `self._constraints` — the user's own list — so what is dumped is what was stored (the cumulative-bound
+closures are rebuilt by the twin's constructor).  `f` is stored and returned as given. -/
 def semADevice : DevSem α δ :=
+  { norm := fun _ v => v, dumpVal := fun _ _ v => v, post := fun d => d, cbRequired := false }
+
+/-- HISTORICAL (before `/repo` commit 31f4c67): `to_dict` dumped the getter's value, i.e. the
+cumulative-bound closures of the original in front of the user's constraints.  Kept only so that
+`DK.C16.old_ADevice_dump_counterexample` can say why that dump function broke the round trip. -/
+def semADeviceOld : DevSem α δ :=
   { norm := fun _ v => v, post := fun d => d, cbRequired := false,
     dumpVal := fun d k v => match k, v with
       | "constraints", .cons l => .cons (deviceCons d.n (d.cbounds.getD []) ++ l)
